@@ -60,7 +60,12 @@ def run(ctx):
         hz = f_hz.result()
         ctx.extra["hazard_violated_invariant"] = hz.violated
         g = f_g.result()
-    cases = ctx.read_emitted(g, "cases.ndjson")
+    docs = ctx.read_emitted(g, "cases.ndjson")
+    cases = []          # one case per (input, attempt number)
+    for d in docs:
+        for i, a in enumerate(d["attempts"]):
+            cases.append({"layout": d["layout"], "need": d["need"], "kind": d["kind"], "ready": d["ready"],
+                          "orders": d["orders"], "attempt": i + 1, "expect": a["expect"], "possible": a["possible"]})
     ok_cases = [c for c in cases if c["expect"] == "ok"]
     if len(cases) < 1000 or len(ok_cases) < 500:
         ctx.broken("case generation produced %d inputs (%d with a selection)" % (len(cases), len(ok_cases)))
@@ -73,11 +78,13 @@ def run(ctx):
     ctx.note("specification inputs: %d (%d with a selection, %d with hidden choices or retry exclusions)" % (
         len(cases), len(ok_cases), len(hot)))
     if ctx.thorough:
-        sel = list(cases)
+        # every input of groups up to 5 members, a seeded sample of the 6-member groups
+        big = [c for c in cases if len(c["layout"]) >= 6]
+        sel = [c for c in cases if len(c["layout"]) < 6] + rnd.sample(big, min(4000, len(big)))
         traced = rnd.sample(hot, min(500, len(hot))) + rnd.sample(rest, min(150, len(rest)))
     else:
         sel = rnd.sample(hot, min(350, len(hot))) + rnd.sample(rest, min(120, len(rest)))
-        traced = rnd.sample(sel[:350], min(110, len(sel))) + sel[-30:]
+        traced = rnd.sample(sel[:350], min(70, len(sel))) + sel[-20:]
     tids = set(id(c) for c in traced)
     for c in sel:
         c["trace"] = id(c) in tids
@@ -127,7 +134,7 @@ def run(ctx):
              "upwards, attempts 1..%s (signing 1..2); each input under several address assignments and messages, loops for "
              "every member index, ready list in every order (<=4 ready) or all rotations of ascending/descending; quick: seeded "
              "sample biased to inputs with hidden choices, thorough: all; non-trivial = inputs with a selection fed in more than "
-             "one order" % (ctx.pick("5 members / 3 operators", "5 members / 4 operators"), ctx.pick(5, 8)),
+             "one order" % (ctx.pick("5 members / 3 operators", "6 members / 4 operators (6-member groups sampled)"), ctx.pick(8, 12)),
         assumptions=["math/rand shuffles and the SHA-256 derived seed are treated as arbitrary but fixed per (message, attempt)",
                      "operator identity enters only through the address order (canonical layouts x address assignments)",
                      "messages and address assignments are sampled"],
